@@ -34,7 +34,7 @@ pub enum E {
     Both,
     /// client channel-0 request: 0 = open_channel, 1 = listen_for_connection_blocked, 2 = Connection::close
     Ch0(u8),
-    /// client request on the channel being closed: 0 = rpc, 1 = publish
+    /// client request on the channel being closed: 0 = rpc, 1 = publish, 2 = Channel::close
     OnClosed(u8),
     /// client rpc on another channel
     OnOther,
@@ -102,9 +102,13 @@ fn execute(events: &[E], batched: bool, explicit_ids: bool, res: &mut CaseResult
     };
     let mut fire = |e: E, conn_opt: &mut Option<Connection>, ch0_task: &mut Option<Ch0Task>| match e {
         E::ConnClose => h.inject(conn_close_frame(CODE, TEXT)),
-        E::ChanClose => h.inject(chan_close_frame(n_id, 406, "chan")),
+        E::ChanClose => {
+            // (a broker that has already processed the client's own Close of n has nothing to close)
+            h.server_close_channel(n_id, 406, "chan");
+        }
         E::Both => {
-            let mut b = chan_close_frame(n_id, 406, "chan");
+            let client_closed = h.peek(|st| st.reflex.client_closed_channels.contains(&n_id));
+            let mut b = if client_closed { Vec::new() } else { chan_close_frame(n_id, 406, "chan") };
             b.extend(conn_close_frame(CODE, TEXT));
             h.inject(b)
         }
@@ -129,7 +133,11 @@ fn execute(events: &[E], batched: bool, explicit_ids: bool, res: &mut CaseResult
             });
         }
         E::OnClosed(k) => {
-            n_actor.send(if k == 0 { Cmd::Rpc } else { Cmd::Publish(100) });
+            n_actor.send(match k {
+                0 => Cmd::Rpc,
+                1 => Cmd::Publish(100),
+                _ => Cmd::Close,
+            });
             fired_closed = true;
         }
         E::OnOther => {
@@ -365,7 +373,7 @@ pub fn event_sets() -> Vec<Vec<E>> {
             let mut next = Vec::new();
             for base in &reqs {
                 next.push(base.clone());
-                for k in 0..2u8 {
+                for k in 0..3u8 {
                     let mut b = base.clone();
                     b.push(E::OnClosed(k));
                     next.push(b);
